@@ -1,6 +1,7 @@
 package props
 
 import (
+	"sync"
 	"fmt"
 	"math/rand"
 	"net/url"
@@ -65,7 +66,30 @@ type specGen struct {
 	n     int
 }
 
+// Globally registered functions: registered once, before any goroutine of a workload starts (the
+// specs are always built before they are run). vmon_glob reports strings that contain "bad" and odd
+// integers; vmon_late_* are registered later, at quiescent points (C11).
+var globalsOnce sync.Once
+
+func vmonGlobFn(errBuf *strings.Builder, validName, objName, fieldName string, tv reflect.Value) {
+	bad := false
+	switch tv.Kind() {
+	case reflect.String:
+		bad = strings.Contains(tv.String(), "bad")
+	case reflect.Int, reflect.Int8, reflect.Int16, reflect.Int32, reflect.Int64:
+		bad = tv.Int()%2 != 0
+	}
+	if bad {
+		errBuf.WriteString(`"` + objName + fieldName + `" input "", explain: m_vmon_glob_` + validName + valid.ErrEndFlag)
+	}
+}
+
+func ensureGlobals() {
+	globalsOnce.Do(func() { valid.SetCustomerValidFn("vmon_glob", vmonGlobFn) })
+}
+
 func newSpecGen(seed int64, nHot int) *specGen {
+	ensureGlobals()
 	g := &specGen{rng: rand.New(rand.NewSource(seed))}
 	g.plan = tagPlan{TagNames: c08Tags, Style: gen.MsgMixed, MaxRules: 3, Unknown: true, Groups: true, seq: &g.seq}
 	g.topts = gen.TypeOpts{MaxFields: 5, MaxDepth: 2, Leaf: vLeafTypes, Unexported: true, Ptr: true, PtrPtr: true, Slices: true, Arrays: true, Maps: false, Tag: g.plan.ruleTag, Time: true}
@@ -81,7 +105,7 @@ func newSpecGen(seed int64, nHot int) *specGen {
 	return g
 }
 
-var specKinds = []string{"Struct", "ValidateStruct", "StructForFn", "StructForFns", "NestedStructForRule", "Groups", "Var", "VarForFn", "Map", "MapFn", "Url", "Explain", "Dump", "ColdType", "Helpers", "LongSlice", "TwoRuleSets", "VarSpread", "Refused", "AnonNestedAlone"}
+var specKinds = []string{"Struct", "ValidateStruct", "StructForFn", "StructForFns", "NestedStructForRule", "Groups", "Var", "VarForFn", "Map", "MapFn", "Url", "Explain", "Dump", "ColdType", "Helpers", "LongSlice", "TwoRuleSets", "VarSpread", "Refused", "AnonNestedAlone", "GlobalFn", "GroupSlices"}
 
 func (g *specGen) next() callSpec {
 	rng := g.rng
@@ -183,7 +207,55 @@ func (g *specGen) next() callSpec {
 			b := normErr(drive.Call(func() error {
 				return valid.NewVStruct().SetRule(rmI1, &C16Inner{}).SetRule(rmI2, &C16Inner{}).Valid(o)
 			}))
-			return a + " ## " + b
+			// two maps handed to the variadic parameter of Struct: whichever of them the call uses, both stay as written
+			c := normErr(drive.Call(func() error { return valid.Struct(in, rm1, rm2) }))
+			return a + " ## " + b + " ## " + c
+		}
+	case "GroupSlices":
+		// botheq / either groups whose members are unsorted slices (struct by pointer, by value, and a map of
+		// slices): a comparison that orders or de-duplicates must work on copies
+		type gsT struct {
+			A []string  `valid:"botheq=1"`
+			B []string  `valid:"botheq=1"`
+			N []int     `valid:"botheq=2"`
+			M []int     `valid:"botheq=2"`
+			F []float64 `valid:"botheq=3,either=4"`
+			G []float64 `valid:"botheq=3,either=4"`
+		}
+		n := 2 + rng.Intn(6)
+		v := &gsT{}
+		for i := 0; i < n; i++ {
+			v.A = append(v.A, fmt.Sprintf("s%d", rng.Intn(9)))
+			v.N = append(v.N, rng.Intn(9))
+			v.F = append(v.F, float64(rng.Intn(9))/2)
+		}
+		v.B = append([]string{}, v.A...)
+		v.M = append([]int{}, v.N...)
+		v.G = append([]float64{}, v.F...)
+		switch rng.Intn(3) {
+		case 0: // same elements, other order
+			rng.Shuffle(len(v.B), func(a, b int) { v.B[a], v.B[b] = v.B[b], v.B[a] })
+			rng.Shuffle(len(v.M), func(a, b int) { v.M[a], v.M[b] = v.M[b], v.M[a] })
+			rng.Shuffle(len(v.G), func(a, b int) { v.G[a], v.G[b] = v.G[b], v.G[a] })
+		case 1: // one element differs
+			v.B[rng.Intn(n)] = "zz"
+			v.M[rng.Intn(n)] = 99
+		}
+		switch rng.Intn(3) {
+		case 0:
+			s.Inputs = []interface{}{v}
+			s.Desc = fmt.Sprintf("Struct(&%+v) with botheq groups over slices", *v)
+			s.Run = func() string { return normErr(drive.Call(func() error { return valid.Struct(v) })) }
+		case 1:
+			s.Inputs = []interface{}{v}
+			s.Desc = fmt.Sprintf("Struct(%+v) by value with botheq groups over slices", *v)
+			s.Run = func() string { return normErr(drive.Call(func() error { return valid.Struct(*v) })) }
+		default:
+			m := map[string]interface{}{"a": v.A, "b": v.B, "n": v.N, "m": v.M}
+			rm := valid.RM{"a": "botheq=1", "b": "botheq=1", "n": "botheq=2", "m": "botheq=2"}
+			s.Inputs = []interface{}{m, rm}
+			s.Desc = fmt.Sprintf("Map(%v, %v) with botheq groups over slices", m, rm)
+			s.Run = func() string { return normErr(drive.Call(func() error { return valid.Map(m, rm) })) }
 		}
 	case "VarSpread":
 		// rules handed over as a caller-owned slice (with empty items), spread into the variadic parameter
@@ -326,6 +398,20 @@ func (g *specGen) next() callSpec {
 			mark := fmt.Sprintf("fn_var_%d", s.ID)
 			s.Desc = fmt.Sprintf("VarForFn(%v)", v)
 			s.Run = func() string { return normErr(drive.Call(func() error { return valid.VarForFn(v, markerFn(mark)) })) }
+		}
+	case "GlobalFn":
+		// a rule name that resolves to a globally registered function, next to a built-in and an unknown name
+		v := []interface{}{"bad word", "good", 3, 4, "a bad one", int64(7)}[rng.Intn(6)]
+		rules := [][]string{{"vmon_glob"}, {"vmon_glob", "to=1~3|m_g1"}, {"required|m_g2", "vmon_glob"}, {"vmon_glop", "vmon_glob"}}[rng.Intn(4)]
+		if rng.Intn(2) == 0 {
+			s.Desc = fmt.Sprintf("Var(%v,%q) with a global function", v, rules)
+			s.Run = func() string { return normErr(drive.Call(func() error { return valid.Var(v, rules...) })) }
+		} else {
+			rm := valid.RM{"k": strings.Join(rules, ",")}
+			m := map[string]interface{}{"k": v}
+			s.Inputs = []interface{}{m, rm}
+			s.Desc = fmt.Sprintf("Map(%v,%v) with a global function", m, rm)
+			s.Run = func() string { return normErr(drive.Call(func() error { return valid.Map(m, rm) })) }
 		}
 	case "Map", "MapFn":
 		t := flatScalarTypes[rng.Intn(len(flatScalarTypes))]
